@@ -320,6 +320,7 @@ func runC12(w *World, r *Report) {
 	c12DiagnosticSink(w, r)
 	diagnosticAtTheElement(w, r, "C12")
 	visitorKeepsNoPacketState(w, r, "C12")
+	resolverDescendsIntoInline(w, r, "C12")
 	matchKeysCheckedWhereverCollected(w, r, "C12")
 	matchTableReadFromTheField(w, r, "C12", func(fn *ssa.Function) bool { return !isGeneratorFunc(fn) && parsePhaseSet(w)[fn] }, "the packets a match table names are validated on the table of another match field of the same key: an undeclared packet in the earlier table is accepted")
 	nameKeyedSetOverInline(w, r, "C12", func(fn *ssa.Function) bool { return !isGeneratorFunc(fn) && parsePhaseSet(w)[fn] }, "the parse phase remembers packets under their names and consults that set for inline objects too: an inline object named like a construct seen before is skipped, its references are neither linked nor validated (an undeclared name in it is accepted, a declared one stays nil and crashes the generators)")
